@@ -377,7 +377,7 @@ class Style:
     def __init__(self, rng, mixed=False):
         self.upper_hex = rng.random() < 0.5
         self.upper_align = rng.random() < 0.5
-        self.mixed = mixed          # non-uniform case: outside the hypotheses (correspondence only)
+        self.mixed = mixed          # non-uniform case: outside `render`'s image, inside the reference grammar (Thm/C11Grammar.lean)
         self.ws = rng.choice(["none", "space", "space", "mixed", "mixed", "mixed"])
         self.rng = rng
 
@@ -403,16 +403,30 @@ class Style:
         return self.rng.choice(WS_CHOICES)
 
 
+class FreeStyle(Style):
+    """EVERY documented spelling (the reference grammar `readPat`, Thm/C11Grammar.lean): letter case chosen per hex
+    digit and per `@` operand, decimal numbers with leading zeros, any of the admitted white space"""
+
+    def __init__(self, rng):
+        Style.__init__(self, rng, mixed=True)
+        self.ws = rng.choice(["none", "space", "mixed", "mixed"])
+        self.zeros = rng.choice([0, 1, 1, 2])
+
+    def dec(self, n):
+        return "0" * self.rng.choice([0, 0, self.zeros, 3 * self.zeros]) + str(n)
+
+
 def tokens(items, sty):
     """flat token list; white space may go between any two tokens, never inside one"""
     out = []
+    dec = getattr(sty, "dec", str)
     for it in items:
         t = it[0]
         if t == "byte": out.append(sty.hexpair(it[1]))
         elif t == "str": out.append('"' + it[1].decode("utf-8") + '"')
         elif t == "any": out.append("?")
-        elif t == "skip": out.append("[%d]" % it[1])
-        elif t == "range": out.append("[%d-%d]" % (it[1], it[2]))
+        elif t == "skip": out.append("[%s]" % dec(it[1]))
+        elif t == "range": out.append("[%s-%s]" % (dec(it[1]), dec(it[2])))
         elif t == "jump": out.append(it[1])
         elif t == "save": out.append("'")
         elif t == "aligned": out.append("@" + sty.align(it[1]))
@@ -443,11 +457,12 @@ def render(items, sty):
     return s
 
 
-def render_some(rng, tree, n):
-    """n spellings of the tree as hex of the UTF-8 bytes (mostly uniform case = inside the hypotheses)"""
+def render_some(rng, tree, n, styler=None):
+    """n spellings of the tree as hex of the UTF-8 bytes (mostly uniform case = inside the hypotheses of T3;
+    `styler=FreeStyle`: any documented spelling)"""
     out = []
     for _ in range(n):
-        s = render(tree, Style(rng, mixed=rng.random() < 0.05))
+        s = render(tree, styler(rng) if styler else Style(rng, mixed=rng.random() < 0.05))
         h = hx(s.encode("utf-8"))
         if h not in out:
             out.append(h)
@@ -785,7 +800,7 @@ def note_ops(ph, tree, S):
     SAT_OPS[ph] = set(S.ops) if S is not None else set()
 
 
-def image_tree_cases(rng, tree, alpha, bits, nperturb, edge, nvar=4):
+def image_tree_cases(rng, tree, alpha, bits, nperturb, edge, nvar=4, styler=None):
     """all cases of one tree: exact layout, perturbations, truncations; file + view"""
     ptr = bits // 8
     need = total_fp(tree, ptr)
@@ -807,7 +822,7 @@ def image_tree_cases(rng, tree, alpha, bits, nperturb, edge, nvar=4):
     tree, S, start, data = r
     cur = base + start
     sl = save_len(tree)
-    phs = render_some(rng, tree, 2)
+    phs = render_some(rng, tree, 2, styler)
     for ph in phs:
         note_ops(ph, tree, S)
     kf, kv = "f%d" % bits, "v%d" % bits
@@ -1162,7 +1177,125 @@ def gen_sem_outside_built(rng, tier):
     return cases
 
 
+# ================================================================================================
+# the DOCUMENTED upper bound of `[a-b]` (inclusive; Spec/PatternSemDoc.lean, Thm/C11Doc.lean): layouts that match
+# ONLY with exactly `b` skipped bytes — the implementation tries a .. b-1 (known finding) — and their contrasts
+
+def doc_bound_cases(rng, bits):
+    """`pre [a-b] X` and relatives (bookmarks, brace body, first / last alternative, two ranges, bounds >= 256) on
+    data where X follows after exactly s skipped bytes, s in {b (only the documented bound matches), b-1, a, b+1};
+    the skipped bytes never contain X[0], so no other candidate matches -> cases"""
+    kf, kv = "f%d" % bits, "v%d" % bits
+    up = rng.random() < 0.5
+    hs = lambda bs: _hexs(bs, up)
+    pool = rng.sample(range(1, 256), 12)
+    pre = pool[0:rng.choice([1, 2])]
+    X = pool[2:2 + rng.choice([1, 2])]
+    Y = pool[4:4 + rng.choice([1, 2])]
+    A = [pool[6]]
+    if rng.random() < 0.2:
+        a = rng.choice([0, 1, 255, 256, 300])
+        b = a + rng.choice([1, 255, 256, 257])
+    else:
+        a = rng.choice([0, 0, 1, 2, 5, 13])
+        b = a + rng.choice([1, 1, 2, 3, 4, 8, 29])
+    mode = rng.choice(["full", "full", "full", "below", "lower", "beyond"])
+    s = {"full": b, "below": b - 1, "lower": a, "beyond": b + 1}[mode]
+    fill = [x for x in pool[7:] if x != X[0]]
+    skipped = [rng.choice(fill) for _ in range(s)]
+    form = rng.choice(["flat", "flat", "save", "group", "firstalt", "lastalt", "two", "wild"])
+    ns = 1
+    head = [rng.choice(fill) for _ in range(rng.choice([1, 4, 9]))]
+    if form == "flat":
+        pat, body = "%s [%d-%d] %s" % (hs(pre), a, b, hs(X)), pre + skipped + X
+    elif form == "save":
+        pat, body, ns = "%s ' [%d-%d] ' %s u1" % (hs(pre), a, b, hs(X)), pre + skipped + X + [rng.getrandbits(8)], 4
+    elif form == "wild":
+        pat, body = "%s [%d-%d] %s ? [2] %s" % (hs(pre), a, b, hs(X), hs(Y)), pre + skipped + X + [rng.choice(fill) for _ in range(3)] + Y
+    elif form == "firstalt":
+        pat, body, ns = "( %s [%d-%d] %s ' | %s ) %s" % (hs(pre), a, b, hs(X), hs(A), hs(Y)), pre + skipped + X + Y, 2
+    elif form == "lastalt":
+        pat, body, ns = "( %s | %s [%d-%d] %s ' ) %s" % (hs(A), hs(pre), a, b, hs(X), hs(Y)), pre + skipped + X + Y, 2
+    elif form == "two":
+        # a second range behind the first: it sits at its own documented bound, too, or one below
+        c = rng.choice([0, 1, 3])
+        d = c + rng.choice([1, 2, 4])
+        s2 = rng.choice([d, d, d - 1, c])
+        fill2 = [x for x in fill if x != Y[0]] or [0]
+        pat = "%s [%d-%d] %s [%d-%d] %s" % (hs(pre), a, b, hs(X), c, d, hs(Y))
+        body = pre + skipped + X + [rng.choice(fill2) for _ in range(s2)] + Y
+    else:
+        # e8 rel32 { pre [a-b] X } u1 : the body sits behind the call
+        pat, ns = "%s $ { %s [%d-%d] %s ' } u1" % (hs([0xE8]), hs(pre), a, b, hs(X)), 3
+        gapn = rng.choice([1, 6])
+        body = [0xE8] + list(struct.pack("<I", 1 + gapn)) + [rng.getrandbits(8)] + [rng.choice(fill) for _ in range(gapn)] + pre + skipped + X
+    # the layout ends right behind the pattern (the candidate `b` is the last position of the slice) or has slack
+    tailn = rng.choice([0, 0, 1, 5])
+    data = bytes(head + body + [rng.choice(fill) for _ in range(tailn)])
+    pe = new_pe(rng, bits)
+    base = pe.sections[-1].va
+    cur = base + len(head)
+    fl, vl = image_pair(rng, pe, data, rng.choice([0, 0, 1, 0x40]), tight_view=(tailn == 0 and rng.random() < 0.5))
+    ph = _plain(pat)
+    ops = lambda k: [sem_op(k, ph, cur, ns), sem_op(k, ph, cur, rng.choice([0, 1, ns + 1])), sem_op(k, ph, cur + 1, ns)]
+    return [[fl] + ops(kf), [vl] + ops(kv)]
+
+
+def gen_doc_upper_bound(rng, tier):
+    """layouts that need exactly the documented upper bound of a `[a-b]` (and b-1 / a / b+1 skipped bytes)"""
+    cases = []
+    # the witness of Thm/C11Doc.lean:C11_doc_upper_bound_differs and the documentation's own example
+    for bits in (32, 64):
+        kf, kv = "f%d" % bits, "v%d" % bits
+        pe = new_pe(rng, bits)
+        base = pe.sections[-1].va
+        doc = [0xB8] + [0] * 16 + [0x50] + [0x11] * 42 + [0xFF]               # b8 [16] 50 [13-42] ff with 42 skipped bytes
+        data = bytes([0x11, 0x50, 0, 0, 0, 0xFF, 0x50, 0, 0, 0xFF, 0x22] + doc + [0x33])
+        fl, vl = image_pair(rng, pe, data, 0)
+        ops = lambda k: [sem_op(k, _plain("50 [1-3] ff"), base + 1, 1), sem_op(k, _plain("50 [1-3] ff"), base + 6, 1),
+                         sem_op(k, _plain("50 [1-4] ff"), base + 1, 1),
+                         sem_op(k, _plain("b8 [16] 50 [13-42] ff"), base + 11, 1),
+                         sem_op(k, _plain("b8 [16] 50 [13-43] ff"), base + 11, 1)]
+        cases += [[fl] + ops(kf), [vl] + ops(kv)]
+    n = 40 if tier == "quick" else 2000
+    for i in range(n):
+        cases += doc_bound_cases(rng, 32 if i % 2 else 64)
+    return cases
+
+
+def gen_sem_spellings(rng, tier):
+    """documented spellings outside the four uniform styles: mixed-case hex (`4C 8b`, `aB`), `@` operands in either
+    case per occurrence, leading-zero decimals (`[016]`, `[007-12]`), TAB / LF / CR — on satisfying layouts and their
+    perturbations (file + view, both widths)"""
+    cases = []
+    for i, tree in enumerate(SPECIAL_TREES):
+        if tier != "quick" or rng.random() < 0.4:
+            cases += image_tree_cases(rng, tree, None, 32 if i % 2 else 64, 1, edge=False, nvar=0, styler=FreeStyle)
+    n = 30 if tier == "quick" else 1500
+    made = guard = 0
+    while made < n and guard < 20 * n:
+        guard += 1
+        tree, alpha = gen_tree(rng, big=False, avoid=rng.random() < 0.6)
+        cs = image_tree_cases(rng, tree, alpha, rng.choice([32, 64]), rng.choice([1, 2]), edge=rng.random() < 0.3, nvar=0, styler=FreeStyle)
+        if cs:
+            made += 1
+            cases += cs
+    # the audit's own examples
+    for bits in (32, 64):
+        kf, kv = "f%d" % bits, "v%d" % bits
+        pe = new_pe(rng, bits)
+        base = pe.sections[-1].va
+        data = bytes([0x4C, 0x8B, 0xAB] + [0x11] * 16 + [0x50] + [0x22] * 9 + [0xFF, 0x33])
+        fl, vl = image_pair(rng, pe, data, 0)
+        ops = lambda k: [sem_op(k, _plain(p), base, 2) for p in
+                         ("4C 8b aB [016] 50 [007-12] ' fF", "4c 8B Ab\t[0016]\n50 [7-0012]'Ff", "4C8baB[16]50[7-12]'ff @0 @A", "4c 8b ab [016] 50 [007-9] ' ff")]
+        cases += [[fl] + ops(kf), [vl] + ops(kv)]
+    return cases
+
+
 SEM_GENS = [gen_sem_special, gen_sem_random, gen_ref, gen_deviation_witnesses]
+# the documented (inclusive) upper bound: run after everything else (older random streams stay what they were)
+DOC_GENS = [gen_doc_upper_bound, gen_sem_spellings]
 # outside the fragment (kept apart and run LAST so that the random streams of the older generators stay what they were)
 OUTSIDE_GENS = [gen_sem_outside_random, gen_sem_outside_built]
 
@@ -1180,7 +1313,7 @@ def _main():
     work = os.path.join(build.ROOT, ".work", "c11")
     os.makedirs(work, exist_ok=True)
     allops = set()
-    for g in SEM_GENS + OUTSIDE_GENS:
+    for g in SEM_GENS + OUTSIDE_GENS + DOC_GENS:
         t0 = time.time()
         cases = g(rng, tier)
         tg = time.time() - t0
